@@ -16,7 +16,7 @@ import (
 func init() {
 	fw.Register(&fw.Prop{
 		ID:         "C03",
-		Level:      "exploration + exhaustive disconnect enumeration",
+		Level:      "exploration",
 		Exhaustive: false,
 		Rule: "(a) stream 'seq': sessions of 6-45 client lines from a weighted, progress-biased grammar (valid flows, out-of-order commands, " +
 			"mixed-case verbs, unknown verbs, empty lines, 10 KiB and 1 MiB lines, binary garbage, AUTH PLAIN, AUTH LOGIN followed by arbitrary " +
